@@ -76,6 +76,62 @@ def verify_field_validator(run, stats):
             run.undecide(f"{o.name}: {o.answer}")
 
 
+def verify_member_contract(run, stats, dp, what_failed: str, stand_in: str) -> None:
+    """A plugin's generate_property under its relational contract (module dp: LABEL, ASSUMED, report(), native_replay()); reachability
+    first, then the postconditions of the reachable paths, in parallel solver processes; failures are replayed on the real function."""
+    world, rep = dp.report()
+    if rep is None:
+        run.notes.append(f"{dp.LABEL} not found; {stand_in}")
+        return
+    stats.functions.append(dp.LABEL)
+    if rep.unsupported:
+        stats.unsupported.append(f"{dp.LABEL}: {rep.unsupported}")
+        run.notes.append(f"{dp.LABEL}: outside the verified subset ({rep.unsupported}); {stand_in}")
+        return
+    if not rep.obligations:
+        run.crash(f"{dp.LABEL}: zero obligations generated")
+        return
+    from contracts.dotnet_property import solve_parallel
+
+    stats.solver_s += solve_parallel(world, rep)
+    reach = [o for o in rep.obligations if o.kind == "reach"]
+    posts = [o for o in rep.obligations if o.expect == "unsat" and o.backend != "unreachable-path"]
+    stats.reach_total += len(reach)
+    stats.reach_sat += len([o for o in reach if o.answer == "sat"])
+    if not any(o.answer == "sat" for o in reach):
+        run.crash(f"{dp.LABEL}: no reachable path (vacuous contract)")
+        return
+    stats.obligations += len(posts)
+    stats.discharged += len([o for o in posts if o.answer == "unsat"])
+    for o in posts:
+        if o.answer == "unsat":
+            stats.by_backend[o.backend] += 1
+    if posts and len(stats.samples) < 12:
+        from lib.report import ob_sample
+
+        stats.samples.append(ob_sample(posts[0]))
+    for a in dp.ASSUMED:
+        run.assume("assumed callee contract (generate_property): " + a)
+    failed = [o for o in posts if o.answer == "sat"]
+    for o in [o for o in rep.obligations if o.expect == "unsat" and o.answer not in ("sat", "unsat")]:
+        run.undecide(f"{o.name}: solver answered {o.answer}")
+    if failed:
+        o = failed[0]
+        stats.failed.extend(x.name for x in failed)
+        try:
+            native = dp.native_replay(o.model or {})
+        except Exception as e:  # noqa
+            native = []
+            run.notes.append(f"native replay of {dp.LABEL} raised {e!r}")
+        m = {k: v for k, v in (o.model or {}).items() if not k.endswith(".oid")}
+        what = what_failed
+        if native:
+            shown = {k: v for k, v in native[0].items() if k not in ("lines", "observed")}
+            what += f"; e.g. {shown} gives {native[0].get('lines', native[0].get('observed'))}"
+        run.violation(f"{dp.LABEL}:post", what, {"model": m, "path": o.meta, "failed_paths": len(failed), "native_failures": native[:4], "solver_output": o.solver_output[-800:]}, bool(native))
+
+
+
 # ---------------------------------------------------------------------------------------------
 # native replay of helper counterexamples
 # ---------------------------------------------------------------------------------------------
